@@ -23,7 +23,7 @@ def run(prop, tier, seed, t0):
     R.run_sharded(res, exes[1], ['nsched=%d' % na[1]], na[0] * na[1], label='h_c12/det-asan', variant='asan', first=10_000_000)
     # TSan stress with seeded delays (real threads): race reports are violations
     nt = (300, 40) if thorough else (30, 12)
-    env = {'TSAN_OPTIONS': 'halt_on_error=1:abort_on_error=1:second_deadlock_stack=1:report_signal_unsafe=0:report_thread_leaks=0'}
+    env = {'TSAN_OPTIONS': 'allocator_may_return_null=1:halt_on_error=1:abort_on_error=1:second_deadlock_stack=1:report_signal_unsafe=0:report_thread_leaks=0'}
     R.run_sharded(res, exes[2], ['nsched=%d' % nt[1]], nt[0] * nt[1], env=env, label='h_c12/tsan', variant='tsan', first=20_000_000, wall=240 if thorough else 90)
     cov = {
         'evaluations': res.stat('schedules'),
